@@ -2,7 +2,7 @@
    truncated to the smallest unit shown; the digit runs of the displayed string are those components
    (all three styles); automatic units lose nothing. *)
 From Coq Require Import ZArith NArith List Bool String Lia.
-From NP Require Import Model.PyBase Model.A1 Model.DateFormat Model.Duration Proofs.A1P.
+From NP Require Import Model.PyBase Model.A1 Model.DateFormat Model.Duration Proofs.A1P Proofs.DateFormatP.
 Import ListNotations.
 Open Scope N_scope.
 Ltac Zify.zify_post_hook ::= Z.to_euclidean_division_equations.
@@ -314,3 +314,54 @@ Proof.
     + unfold valid_pair. rewrite Hl, Hs. cbn [andb]. now apply N.leb_le.
 Qed.
 
+
+(* ------------------------------------------------------------------ *)
+(* compact style padding                                               *)
+(* ------------------------------------------------------------------ *)
+Lemma nstr_len1 v : v < 10 -> List.length (nstr v) = 1%nat.
+Proof. intros H. unfold nstr. now rewrite (DateFormatP.py_str_N_small v H). Qed.
+Lemma nstr_len2 v : 10 <= v < 100 -> List.length (nstr v) = 2%nat.
+Proof.
+  intros H. unfold nstr. rewrite (DateFormatP.py_str_N_step v) by lia. rewrite app_length.
+  rewrite (DateFormatP.py_str_N_small (v / 10)) by (apply N.div_lt_upper_bound; lia). reflexivity.
+Qed.
+Lemma nstr_len3 v : 100 <= v < 1000 -> List.length (nstr v) = 3%nat.
+Proof.
+  intros H. unfold nstr. rewrite (DateFormatP.py_str_N_step v) by lia. rewrite app_length.
+  change (py_str_N (v / 10)) with (nstr (v / 10)). rewrite nstr_len2; [reflexivity|].
+  split; [apply N.div_le_lower_bound; lia|apply N.div_lt_upper_bound; lia].
+Qed.
+
+(* milliseconds are always shown with three digits: "1:02.005" *)
+Lemma compact_ms_three_digits_lemma largest smallest v : v < 1000 ->
+  show_part S_COMPACT largest smallest (U_MS, v) = zfill 3 (nstr v).
+Proof.
+  intros Hv. unfold show_part.
+  change (U_MS =? U_WEEK) with false. change (U_MS =? U_DAY) with false. change (U_MS =? U_HOUR) with false.
+  change (U_MS =? U_MINUTE) with false. change (U_MS =? U_SECOND) with false. change (S_COMPACT =? S_COMPACT) with true.
+  cbv iota. unfold zfill.
+  destruct (N.leb_spec 100 v).
+  - rewrite nstr_len3 by lia. reflexivity.
+  - destruct (N.leb_spec 10 v).
+    + rewrite nstr_len2 by lia. reflexivity.
+    + rewrite nstr_len1 by lia. reflexivity.
+Qed.
+
+(* minutes and seconds are shown with two digits unless they are the only unit: "1:02:03" *)
+Lemma compact_two_digits_lemma largest smallest u v : u = U_MINUTE \/ u = U_SECOND ->
+  ~ (largest = u /\ smallest = u) -> v < 100 ->
+  show_part S_COMPACT largest smallest (u, v) = zfill 2 (nstr v).
+Proof.
+  intros Hu Hn Hv. unfold show_part, pad_digits.
+  assert ((smallest =? u) && (largest =? u) = false) as E.
+  { destruct (N.eqb_spec smallest u); destruct (N.eqb_spec largest u); try reflexivity. exfalso; apply Hn; now split. }
+  destruct Hu as [-> | ->].
+  - change (U_MINUTE =? U_WEEK) with false. change (U_MINUTE =? U_DAY) with false. change (U_MINUTE =? U_HOUR) with false.
+    change (U_MINUTE =? U_MINUTE) with true. change (S_COMPACT =? S_COMPACT) with true. cbv iota.
+    rewrite E. cbn [orb]. unfold zfill.
+    destruct (N.leb_spec 10 v); [rewrite nstr_len2 by lia|rewrite nstr_len1 by lia]; reflexivity.
+  - change (U_SECOND =? U_WEEK) with false. change (U_SECOND =? U_DAY) with false. change (U_SECOND =? U_HOUR) with false.
+    change (U_SECOND =? U_MINUTE) with false. change (U_SECOND =? U_SECOND) with true. change (S_COMPACT =? S_COMPACT) with true. cbv iota.
+    rewrite E. cbn [orb]. unfold zfill.
+    destruct (N.leb_spec 10 v); [rewrite nstr_len2 by lia|rewrite nstr_len1 by lia]; reflexivity.
+Qed.
